@@ -131,6 +131,8 @@ pub struct World {
     pub draining: bool,
     pub ascii: bool,
     pub nchars: u32,
+    /// violations that do not invalidate further monitoring of the same history (first per kind)
+    pub soft: Vec<Violation>,
     pub ext: crate::monitors::Ext,
 }
 
@@ -156,10 +158,18 @@ impl World {
             draining: false,
             ascii: false,
             nchars: 0,
+            soft: vec![],
             ext: crate::monitors::Ext::default(),
         };
         crate::monitors::init(&mut w);
         w
+    }
+
+    pub fn soft_violation(&mut self, prop: &'static str, kind: &str, detail: String) {
+        self.cnt.inc(&format!("soft_{}", kind));
+        if !self.soft.iter().any(|v| v.prop == prop && v.kind == kind) {
+            self.soft.push(Violation { prop, kind: kind.to_string(), detail });
+        }
     }
 
     pub fn tail(&self, n: usize) -> String {
@@ -199,6 +209,9 @@ impl World {
             }
             self.delivered[r].insert(k);
             self.cnt.inc(if local { "msgs_local" } else { "msgs_rebroadcast" });
+        }
+        if self.mon.c11 {
+            crate::c11::check(self, r)?;
         }
         Ok(n)
     }
